@@ -376,6 +376,7 @@ func runProducerScenario(t testing.TB, rec *vRec, sc *prodScenario) {
 		MaxRequestSize = int32(cfgv.MaxReqSize)
 		defer func() { MaxRequestSize = old }()
 	}
+	vUseDialer(config)
 	if err := config.Validate(); err != nil {
 		rec.Ev("skip", kv{"why": "config invalid: " + err.Error()})
 		return
